@@ -14,6 +14,7 @@ SPECFNS = {}      # name -> SpecFn
 SPECPREDS = {}    # name -> SpecPred (heap-reading macros)
 LEMMAS = {}       # name -> Contract (ghost programs under /verif/spec)
 PROPS = {}        # property id -> list of (kind, name)
+AXIOMS = []       # (name, text, note): ASSUMED facts about opaque spec functions, listed in every evidence file that uses them
 PROP_RUNNERS = {} # property id -> [callable(tier, seed) -> {'coverage':..., 'violations': [...], 'lines': [...]}]
 PROP_LEVEL = {}   # property id -> evidence level ('proof' default)
 PROP_NOTES = {}
@@ -100,6 +101,9 @@ class Contract:
     def interface(self):
         """this contract is the interface contract of a method: calls through the base type use it without case split"""
         self.interface_flag = True; return self
+    def merge_paths_at_loops(self):
+        """join the paths that reach a loop (one ite-merged state): the loop body is then verified once"""
+        self.merge_flag = True; return self
     def unfold(self, depth):
         self.unfold_depth = depth; return self
     def epoch_preserving(self):
@@ -199,3 +203,7 @@ def lemma(name=None, requires=(), ensures=(), decreases=None, types=None, props=
         REG['lemma.' + nm] = c
         return c
     return deco
+
+
+def axiom(name, text, note=''):
+    AXIOMS.append((name, text, note))
